@@ -127,7 +127,9 @@ def gen_worker(arg):
             triv = ob.kind != 'cover' and z3.is_true(ob.goal) and not ob.hyps
             obs.append({'name': ob.name, 'kind': ob.kind, 'label': ob.label, 'func': ob.func, 'line': ob.line,
                         'goal_str': str(ob.goal)[:300] if ob.goal is not None else '', 'n_hyps': len(ob.hyps), 'trivial': triv,
-                        'smt2': None if triv else solve.ob_to_smt2(ob.hyps, ob.goal), 'focus': getattr(ob, 'using', None)})
+                        'smt2': None if triv else solve.ob_to_smt2(ob.hyps, ob.goal),
+                        # the `using` subset travels as its own SMT-LIB text (positions do not survive the parser, which splits conjunctions)
+                        'focus': (solve.ob_to_smt2([ob.hyps[i_] for i_ in ob.using], ob.goal) if getattr(ob, 'using', None) and not triv else None)})
         return {'info': info, 'obs': obs, 'assumed': sorted(eng.assumed_used)}
     except Exception:
         return {'crash': traceback.format_exc()[-1200:]}
